@@ -20,7 +20,7 @@ type Config struct {
 	HasMax   bool   `json:"has_max"`
 	Limit    uint32 `json:"limit"`
 	CapMax   bool   `json:"capacity_from_max"`
-	Alloc    string `json:"alloc"` // "go" | "custom"
+	Alloc    string `json:"alloc"` // "go" | custom allocator behaviour: "exact" | "reserve" | "recycled" | "refusing"
 	Imported bool   `json:"imported"`
 }
 
@@ -45,12 +45,32 @@ func (c Config) Bound() uint32 {
 	return b
 }
 
+// allocKinds is the allocator dimension: Go's allocator plus the family of custom allocator behaviours.
+var allocKinds = []string{"go", "exact", "reserve", "recycled", "refusing"}
+
+// RefusePages: the refusing allocator returns nil for any request beyond min+1 pages (0 = never refuses).
+func (c Config) RefusePages() uint32 {
+	if c.Alloc == "refusing" {
+		return c.Min + 1
+	}
+	return 0
+}
+
+// GrowBound is the bound a grow can actually reach: Bound, lowered by an allocator that refuses.
+func (c Config) GrowBound() uint32 {
+	b := c.Bound()
+	if r := c.RefusePages(); r != 0 && r < b {
+		b = r
+	}
+	return b
+}
+
 // Accepted is the reference verdict on compilation: a valid declaration is usable exactly when its
 // minimum fits the limit (then [min, Bound] is non-empty because min <= max holds for valid declarations).
 func (c Config) Accepted() bool { return c.Min <= c.Limit }
 
 // Huge: some reachable size (or the eager capacity) is a multi-GiB buffer.
-func (c Config) Huge() bool { return c.Accepted() && c.Bound() >= hugePages }
+func (c Config) Huge() bool { return c.Accepted() && c.GrowBound() >= hugePages }
 
 var alphabet = []uint32{0, 1, 2, 3, 65535, 65536}
 
@@ -70,7 +90,7 @@ func allConfigs() []Config {
 			}
 			for _, lim := range alphabet {
 				for _, cm := range []bool{false, true} {
-					for _, al := range []string{"go", "custom"} {
+					for _, al := range allocKinds {
 						for _, imp := range []bool{false, true} {
 							out = append(out, Config{Min: mn, Max: mx, HasMax: has, Limit: lim, CapMax: cm, Alloc: al, Imported: imp})
 						}
@@ -102,7 +122,7 @@ func sources(c Config) []string {
 }
 
 // deltasAt is the delta alphabet in a state with `pages` pages: {0,1,2,bound-cur,bound-cur+1,
-// declaredMax-cur,declaredMax-cur+1,65535,65536,2^31,2^32-1}, de-duplicated, ascending.
+// declaredMax-cur,declaredMax-cur+1,(refusal threshold-cur,+1),65535,65536,2^31,2^32-1}, de-duplicated, ascending.
 func deltasAt(c Config, pages uint32) []uint32 {
 	set := map[uint32]bool{0: true, 1: true, 2: true, 65535: true, 65536: true, 1 << 31: true, 1<<32 - 1: true}
 	b := c.Bound()
@@ -113,6 +133,10 @@ func deltasAt(c Config, pages uint32) []uint32 {
 	if c.HasMax && c.Max >= pages {
 		set[c.Max-pages] = true
 		set[c.Max-pages+1] = true
+	}
+	if r := c.RefusePages(); r != 0 && r >= pages && r <= maxPages {
+		set[r-pages] = true
+		set[r-pages+1] = true
 	}
 	var out []uint32
 	for d := range set {
